@@ -50,8 +50,27 @@ def dense_start_cases(tier, seed):
                "opts": {"perturb": {"p": rng.choice([0.3, 0.6]), "sleep_p": 0.6, "max_sleep": 0.002, "seed": seed * 17 + j, "files": ["executor.py"]}}}
 
 
+def wide_cases(tier, seed):
+    """Contexts that hand out many identifiers: a map / parallel with hundreds of branches, a context with hundreds of operations in
+    sequence (tables indexed by a hash or a truncated counter only repeat beyond some width)."""
+    i = 0
+    for n in ((130, 260) if tier == "quick" else (64, 129, 130, 200, 257, 300, 520, 1030)):
+        for shape in ("map", "seq", "par"):
+            if shape == "map":
+                body = [{"k": "map", "items": list(range(n)), "body": [{"k": "step", "val": "m"}], "cfg": {"max_conc": 8}}, {"k": "wait", "s": 1}, {"k": "step", "val": "after"}]
+            elif shape == "par":
+                if n > 300:
+                    continue
+                body = [{"k": "par", "branches": [{"body": [{"k": "step", "val": b}]} for b in range(n)], "cfg": {"max_conc": 8}}, {"k": "wait", "s": 1}, {"k": "step", "val": "after"}]
+            else:
+                body = [{"k": "child", "body": [{"k": "step", "val": j} for j in range(n)]}, {"k": "wait", "s": 1}, {"k": "step", "val": "after"}]
+            yield {"label": "wide-" + shape, "prog": {"body": body}, "prog_seed": 8700 + i, "pattern": {"p": "plain"}, "max_inv": 6, "opts": {"hang_s": 6.0}}
+            i += 1
+
+
 def explicit_all(tier, seed):
     yield from explicit(tier, seed)
+    yield from wide_cases(tier, seed)
     yield from dense_start_cases(tier, seed)
 
 
